@@ -13,7 +13,8 @@ use zkabacus_crypto as za;
 
 pub struct C01;
 
-pub const STRATEGIES: [(&str, usize); 11] = [
+pub const STRATEGIES: [(&str, usize); 12] = [
+    ("residual-pair", 140),
     ("structured-lie", 8),
     ("compensating-shift", 5),
     ("control", 1),
@@ -590,6 +591,65 @@ fn run_case(o: &mut Outcome, case: &Value) {
             let at = attack(m, &ag, seed, &draft, &mut build, o);
             accepted = if at.accepted { Some((at, h, dt.st.bf, dt.cl.bf)) } else { None };
         }
+        "residual-pair" => {
+            // The verifier's eight slot equations have residuals r_k = c*a_k + b_k, where a_k is the
+            // lie in that slot (hidden value minus agreed value / minus the linked slot) and b_k the
+            // offset of its mask (commitment scalar minus the revealed / linked one). A verifier
+            // that folds them into ONE weighted sum can be satisfied without every r_k being zero:
+            // equal weights by a_i = -a_j (value-value), weights that differ by a factor c (powers
+            // of the challenge as "batching randomisers") by b_j = -a_i (value-mask). Every ordered
+            // pair of equations, both kinds; the sub-proofs themselves stay valid.
+            const EQ: [(bool, usize, &str); 8] = [(true, 0, "state-id"), (false, 0, "close-id"), (false, 1, "close-tag"), (true, 2, "lock-link"), (true, 3, "state-customer"), (false, 3, "close-customer"), (true, 4, "state-merchant"), (false, 4, "close-merchant")];
+            let mut pairs: Vec<(usize, usize, u8)> = Vec::new();
+            for i in 0..8 {
+                for j in 0..8 {
+                    if i == j {
+                        continue;
+                    }
+                    if i < j {
+                        pairs.push((i, j, 0));
+                    }
+                    pairs.push((i, j, 1));
+                    pairs.push((i, j, 2));
+                }
+            }
+            let (i, j, kind) = pairs[variant % pairs.len()];
+            let mut h = truth.clone();
+            let lie = |h: &mut Hidden, k: usize, d: Scalar| {
+                let (on_state, slot, _) = EQ[k];
+                if on_state {
+                    h.st[slot] += d;
+                } else {
+                    h.cl[slot] += d;
+                }
+            };
+            lie(&mut h, i, delta);
+            if kind == 0 {
+                lie(&mut h, j, -delta);
+            }
+            let d0 = est_draft_linked(m, &h, &mut s);
+            let d = if kind == 0 {
+                d0
+            } else {
+                let off = if kind == 1 { -delta } else { delta };
+                let (on_state, slot, _) = EQ[j];
+                let (mut ss, mut sc) = (d0.st.s.clone(), d0.cl.s.clone());
+                if on_state {
+                    ss[slot] += off;
+                } else {
+                    sc[slot] += off;
+                }
+                let st = Raw1::new(g, ys.clone(), h.st.to_vec(), d0.st.bf, d0.st.s_bf, ss);
+                let cl = Raw1::new(g, ys.clone(), h.cl.to_vec(), d0.cl.bf, d0.cl.s_bf, sc);
+                EstDraft { cs: d0.cs, st, cl }
+            };
+            site = format!("residual-pair/{}/{}/{}", ["value-value", "value-mask-minus", "value-mask-plus"][kind as usize], EQ[i].2, EQ[j].2);
+            o.bump("fault.byzantine.residual-pair");
+            let draft = assemble_est(&template, &d, None, &EstOverrides::default());
+            let mut build = |c: &Scalar| assemble_est(&template, &d, Some(c), &EstOverrides::default());
+            let at = attack(m, &ag, seed, &draft, &mut build, o);
+            accepted = if at.accepted { Some((at, h, d.st.bf, d.cl.bf)) } else { None };
+        }
         "replayed-draft" => {
             // a proof accepted in one session (true there) presented in another session whose agreed
             // values differ: other context / other balances
@@ -665,6 +725,10 @@ impl Prop for C01 {
         let mut sch = Sched::new(seed, "c01/cases");
         for rep in 0..per {
             for (name, nvar) in STRATEGIES.iter() {
+                if *name == "residual-pair" && tier == Tier::Quick && rep >= 1 {
+                    // the pair family is enumerated once in the quick tier
+                    continue;
+                }
                 for variant in 0..*nvar {
                     let (cust, merch) = if rep == 0 {
                         (10, 1000)
@@ -703,7 +767,7 @@ impl Prop for C01 {
         v
     }
     fn rule(&self) -> String {
-        "one case = one session between the real merchant (initialize, then activate) and a Byzantine customer: fresh agreed (channel id, balances from the boundary lattice or random, context); after the accept-the-truth control the actor runs one strategy of the family {honest prover lying in one slot (7), cross-slot substitution (4), one violated relation / invalid sub-proof (12), compensating shifts between the two sub-proofs (5), structured lies (balances congruent mod 2^64 / 2^128, sum-preserving two-slot lies) (8), post-challenge choice of each revealed commitment scalar (4), of each scalar commitment T (2), of each commitment C (2), of several at once (3), replay of an accepted proof under other agreed values (2)} using probe -> read the merchant's challenge through the hook -> adapt -> resubmit (up to three rounds). Distinct = distinct (strategy, variant, balances, seed); non-trivial = an attack (not just the control) was run".into()
+        "one case = one session between the real merchant (initialize, then activate) and a Byzantine customer: fresh agreed (channel id, balances from the boundary lattice or random, context); after the accept-the-truth control the actor runs one strategy of the family {honest prover lying in one slot (7), cross-slot substitution (4), one violated relation / invalid sub-proof (12), compensating shifts between the two sub-proofs (5), residual pairs (every ordered pair of the eight slot equations: lie in one, opposite lie or mask offset of -/+ the same amount in the other; 140), structured lies (balances congruent mod 2^64 / 2^128, sum-preserving two-slot lies) (8), post-challenge choice of each revealed commitment scalar (4), of each scalar commitment T (2), of each commitment C (2), of several at once (3), replay of an accepted proof under other agreed values (2)} using probe -> read the merchant's challenge through the hook -> adapt -> resubmit (up to three rounds). Distinct = distinct (strategy, variant, balances, seed); non-trivial = an attack (not just the control) was run".into()
     }
     fn assumptions(&self) -> Vec<String> {
         vec![
@@ -713,6 +777,6 @@ impl Prop for C01 {
         ]
     }
     fn required_probes(&self, _tier: Tier) -> Vec<&'static str> {
-        vec!["probe.control_accepted", "probe.attack_refused", "fault.byzantine.adaptive-revealed-scalar", "fault.byzantine.adaptive-scalar-commitment", "fault.byzantine.adaptive-commitment", "fault.byzantine.per-relation", "fault.byzantine.cross-slot", "fault.byzantine.lying-honest-prover", "fault.byzantine.compensating-shift"]
+        vec!["probe.control_accepted", "probe.attack_refused", "fault.byzantine.adaptive-revealed-scalar", "fault.byzantine.adaptive-scalar-commitment", "fault.byzantine.adaptive-commitment", "fault.byzantine.per-relation", "fault.byzantine.cross-slot", "fault.byzantine.lying-honest-prover", "fault.byzantine.compensating-shift", "fault.byzantine.residual-pair"]
     }
 }
